@@ -59,6 +59,8 @@ KANI_BOUNDS = {
     "input_from_iter_bounded": "payload <= 6 bytes (unwind 10); cross-check of rule R5 (iterator order == concatenation) on the real iterator, the function itself is proved by Verus",
     "input_owned_iter_bounded": "payload <= 6 bytes (unwind 10); cross-check of rule R5, the function itself is proved by Verus",
     "input_label_arrays_bounded": "label pieces <= 6 bytes (unwind 10); cross-check of rule R5, the function itself is proved by Verus",
+    "x25519_sk_decode_length": "slices of 0..=40 bytes other than 32 (the decoders start with a slice-to-array conversion)",
+    "ristretto_decode_length": "slices of 0..=40 bytes other than 32; decompress stubbed by its contract",
     "chain_iter_order_bounded": "<= 3 chunks of <= 2 bytes (unwind 5): UpdateExt::chain_iter / MacExt::update_iter feed chunks in iteration order",
 }
 
